@@ -114,6 +114,9 @@ pub enum Op {
     /// work (its own tasks, or serving a request of the other instance);
     /// it is started again from its directory right away.
     CrashNext { inst: usize, k: u64 },
+    /// The snapshot update task runs (on a quiet instance) with its k-th
+    /// storage mutation failing with an I/O error.
+    SnapshotFail { inst: usize, k: u64 },
     /// Explicit RRDP session reset.
     RrdpSessionReset { inst: usize },
     /// The publication server operator removes the CA's publisher.
@@ -142,6 +145,7 @@ impl Op {
             | Op::KeyRollInit { inst, .. } | Op::KeyRollActivate { inst, .. }
             | Op::RefreshAll { inst } | Op::RepublishAll { inst, .. }
             | Op::RepoSyncAll { inst } | Op::Snapshot { inst }
+            | Op::SnapshotFail { inst, .. }
             | Op::Restart { inst } | Op::RrdpSessionReset { inst }
             | Op::RemovePublisher { inst, .. } | Op::RestartRrdp { inst, .. }
             | Op::Partition { inst } => vec![*inst],
@@ -171,6 +175,7 @@ impl Op {
             Op::RepublishAll { .. } => "republish_all",
             Op::RepoSyncAll { .. } => "repo_sync_all",
             Op::Snapshot { .. } => "snapshot",
+            Op::SnapshotFail { .. } => "snapshot_fail",
             Op::Advance { .. } => "advance",
             Op::Pump => "pump",
             Op::Restart { .. } => "restart",
@@ -228,6 +233,8 @@ pub struct GenCfg {
     pub w_signer: u64,
     /// Weight of a process crash during the next background work.
     pub w_crash: u64,
+    /// A third of the snapshot updates run with a failing write.
+    pub snapshot_faults: bool,
     pub pump_pct: u64,
 }
 
@@ -257,6 +264,7 @@ impl Default for GenCfg {
             w_partition: 0,
             w_signer: 0,
             w_crash: 0,
+            snapshot_faults: false,
             pump_pct: 55,
         }
     }
@@ -674,7 +682,13 @@ pub fn generate(rng: &mut Rng, ctx: &GenCtx) -> Op {
             0 | 1 => Op::RefreshAll { inst },
             2 => Op::RepublishAll { inst, force: rng.chance(1, 2) },
             3 => Op::RepoSyncAll { inst },
-            4 | 6 => Op::Snapshot { inst },
+            4 | 6 => {
+                if cfg.snapshot_faults && rng.chance(1, 3) {
+                    Op::SnapshotFail { inst, k: 1 + rng.below(10) }
+                } else {
+                    Op::Snapshot { inst }
+                }
+            }
             _ => {
                 if cfg.allow_restart && ctx.disk[inst] {
                     Op::Restart { inst }
